@@ -258,7 +258,7 @@ fn strace_sample(acc: &mut Acc) {
 }
 
 pub fn run(ctx: &Ctx) -> i32 {
-    let n = ctx.size(5000, 100000);
+    let n = ctx.size(5000, 300000);
     let seed = ctx.seed;
     let mut acc = crate::par::run(n, 8, |i, acc| {
         let case = gen_case(seed, i, acc);
